@@ -427,3 +427,64 @@ class KillTask(Task):
              detail=repr([(e.name, e.args) for e in last]))
         I.ob(f"{P}/every-wait-for-the-provider-is-a-bounded-sleep", all(isinstance(e.args[0], (int, float)) and 0 < e.args[0] <= 1
                                                                       for e in I.trace if e.name == "sleep"))
+
+
+SREL = f"{AC}:ACSE.send_release"
+
+
+class SendReleaseTask(Task):
+    """ACSE.send_release on its real body: ONE fresh A-RELEASE primitive is handed to the provider - without a result for a request,
+    with the result 'affirmative' for a response (PS3.8 7.2: the only value) - and the association remembers that it has sent one."""
+    name = "ACSE.send_release"
+    functions = [SREL]
+    shard = False
+
+    def __init__(self, prefix="C07/"):
+        self.prefix = prefix
+
+    def config(self, repo):
+        c = Config()
+        c.ob_prefix = self.prefix
+        c.summaries["pynetdicom.pdu_primitives:A_RELEASE"] = lambda I, a, k: I.ghost["new_primitive"](I)
+
+        def env_call(I, env, method, args, kw):
+            if env.path == "acse.dul" and method == "send_pdu":
+                I.trace.append(Ev("send_pdu", (args[0],)))
+                return None
+            return NotImplemented
+        c.env_call = env_call
+        return c
+
+    def body(self, I):
+        P, g = f"{self.prefix}{SREL}", I.ghost
+        made = []
+
+        def new_primitive(I_):
+            p = Env(f"primitive{len(made)}")
+            made.append(p)
+            return p
+        g["new_primitive"] = new_primitive
+        me = Env("acse", cls=I.repo.cls(f"{AC}:ACSE"))
+        assoc, dul = Env("acse.assoc"), Env("acse.dul")
+        me.attrs.update(_assoc=assoc, assoc=assoc, dul=dul)
+        how = I.choose(3, "is_response")
+        args = [me] if how == 0 else [me, how == 2]
+        rsp = how == 2
+        kind, val = I.run_function(I.repo.func(SREL), args)
+        I.ob(f"{P}/no-exception", kind == "return", detail=f"{kind}:{val!r}")
+        if kind != "return":
+            return
+        sent = [e for e in I.trace if e.name == "send_pdu"]
+        I.ob(f"{P}/exactly-one-fresh-A-RELEASE-primitive-is-sent", len(sent) == 1 and len(made) == 1 and sent[0].args[0] is made[0],
+             detail=f"{len(sent)} sent, {len(made)} constructed")
+        if len(made) != 1 or len(sent) != 1:
+            return
+        sets = {}
+        for e in I.trace[:I.trace.index(sent[0])]:
+            if e.name == "setattr" and e.args[0] == made[0].path:
+                sets.setdefault(e.args[1], []).append(e.args[2])
+        I.ob(f"{P}/a-response-carries-the-result-affirmative-a-request-carries-none",
+             sets == ({"result": ["affirmative"]} if rsp else {}), detail=f"is_response={rsp}: {sets}")
+        fl = [e for e in I.trace[:I.trace.index(sent[0])] if e.name == "setattr" and e.args[0] == "acse.assoc"]
+        I.ob(f"{P}/the-association-remembers-that-a-release-primitive-was-sent", [(e.args[1], e.args[2]) for e in fl] == [("_sent_release", True)],
+             detail=repr([(e.args[1], e.args[2]) for e in fl]))
